@@ -85,6 +85,15 @@ var progSpecs = []progSpec{
 	{"container/support", "defaultDefinitionRegistry", "GetMetaOrRegister", "dreg_GetMetaOrRegister"},
 	{".", "", "Run", "ioc_Run"},
 	{".", "", "Register", "ioc_Register"},
+	{"app", "", "Options", "aopt_Options"},
+	{"app", "", "SetRegistry", "aopt_SetRegistry"},
+	{"app", "", "SetComponents", "aopt_SetComponents"},
+	{"app", "", "SetConfigure", "aopt_SetConfigure"},
+	{"app", "", "SetConfig", "aopt_SetConfig"},
+	{"app", "", "SetFactory", "aopt_SetFactory"},
+	{"app", "", "SetConfigLoader", "aopt_SetConfigLoader"},
+	{"app", "", "AddConfigLoader", "aopt_AddConfigLoader"},
+	{"app", "", "SetConfigBinder", "aopt_SetConfigBinder"},
 }
 
 // conversions whose single argument is passed through unchanged
